@@ -233,11 +233,21 @@ def check_inflight(plan) -> Result:
             data, _ = encode(("D", i, 0, 0), 9000 + i)
             proto.data_received(data)
             expected = (expected + 1) % 8
+        tx = plan.get("tx", 0)  # the host's sender has already had tx frames acknowledged: its frame number tx is in flight
+        for k in range(tx):
+            prior = asyncio.ensure_future(proto.send_data(bytes([0x41, k, 0x05, 0x01])))
+            for _ in range(5):
+                await asyncio.sleep(0)
+            proto.data_received(refash.wire(refash.enc_ack((k + 1) % 8)))
+            await asyncio.wait([prior], timeout=1)
+            if not prior.done() or prior.exception() is not None:
+                r.bad("C04:harness:prior-send", f"{prior}")
+                return
         send = asyncio.ensure_future(proto.send_data(b"\x42\x00\x05\x01"))
         for _ in range(5):
             await asyncio.sleep(0)
         mine = [f for _, d in tr.writes for f in refash.split_wire(d) if f.get("kind") == "DATA"]
-        if len(mine) != 1 or mine[0]["frm"] != 0:
+        if len(mine) != tx + 1 or mine[-1]["frm"] != tx % 8:
             r.bad("C04:harness:no-frame-in-flight", f"{mine}")
             return
         want_ev, want_wr, blob = [], [], b""
@@ -375,18 +385,22 @@ def _worker_codes(c, start):
 
 def _worker_inflight(c, start):
     """every ordered pair (and single) over ACK / NAK / DATA symbols that refer to the host's in-flight frame 0"""
-    syms = [("A", 1), ("A", 0), ("N", 0), ("N", 1), ("D", start, 0, 1), ("D", start, 0, 0), ("D", (start + 1) % 8, 0, 1),
-            ("D", (start + 1) % 8, 1, 1), ("D", start, 1, 1), ("D", (start + 7) % 8, 1, 0)]
-    for a_ in syms:
-        plan = {"start": start, "seq": [list(a_)], "inflight": True}
-        c.check(plan, check_inflight(plan), sample=False)
-        for b_ in syms:
-            plan = {"start": start, "seq": [list(a_), list(b_)], "inflight": True}
-            c.check(plan, check_inflight(plan), sample=(start == 2 and a_ == ("A", 1) and b_[0] == "D" and b_[1] == 2 and b_[3] == 1))
-            if a_[0] == "A" and b_[0] == "D" and b_[1] == start:
-                for c_ in syms[4:7]:
-                    plan = {"start": start, "seq": [list(a_), list(b_), list(c_)], "inflight": True}
-                    c.check(plan, check_inflight(plan), sample=False)
+    for tx in range(8):
+        cov, same = (tx + 1) % 8, tx  # ackNum that covers the in-flight frame / that repeats the previous acknowledgement
+        syms = [("A", cov), ("A", same), ("N", same), ("N", cov), ("D", start, 0, cov), ("D", start, 0, same), ("D", (start + 1) % 8, 0, cov),
+                ("D", (start + 1) % 8, 1, cov), ("D", start, 1, cov), ("D", (start + 7) % 8, 1, same)]
+        for a_ in syms:
+            plan = {"start": start, "seq": [list(a_)], "inflight": True, "tx": tx}
+            c.check(plan, check_inflight(plan), sample=False)
+            if tx not in (0, 7) and a_[0] != "D":
+                continue  # all ordered pairs for the first and the last frame number; DATA-first pairs for the others
+            for b_ in syms:
+                plan = {"start": start, "seq": [list(a_), list(b_)], "inflight": True, "tx": tx}
+                c.check(plan, check_inflight(plan), sample=(start == 2 and tx == 7 and a_ == ("A", cov) and b_[0] == "D" and b_[1] == 2 and b_[3] == cov))
+                if tx == 0 and a_[0] == "A" and b_[0] == "D" and b_[1] == start:
+                    for c_ in syms[4:7]:
+                        plan = {"start": start, "seq": [list(a_), list(b_), list(c_)], "inflight": True, "tx": tx}
+                        c.check(plan, check_inflight(plan), sample=False)
 
 
 def _worker_pairs(c, start):
